@@ -60,7 +60,8 @@ impl C06 {
         let gs = GatheringSettings { players: *cx.rng.pick(&[GatherToggle::Try, GatherToggle::Enforce, GatherToggle::Skip]), mutators_and_rules: *cx.rng.pick(&[GatherToggle::Try, GatherToggle::Enforce, GatherToggle::Enforce, GatherToggle::Skip]) };
         let info = st.info_datagram();
         let rules = st.rules_datagrams(n_rule_d);
-        let players = st.players_datagrams(n_player_d, cx.rng.bool() || st.num_players == 0);
+        // a server with nobody on it may stay silent on the players request; under Enforce that silence is a failure by definition (C11), so there the model always answers
+        let players = st.players_datagrams(n_player_d, cx.rng.bool() || st.num_players == 0 || gs.players == GatherToggle::Enforce);
         cx.eval();
         let all: Vec<&Vec<u8>> = std::iter::once(&info).chain(rules.iter()).chain(players.iter()).collect();
         if all.iter().any(|d| d.len() > 1024) {
